@@ -92,11 +92,11 @@ Section WithClen.
     In j (match s with SWrite _ _ _ i => [i] | SAck i => [i] | _ => [] end).
   Proof.
     destruct s as [pre bs | ord | i | pre bs ord i | rot | ord]; cbn [exec_sev]; intros H Hin.
-    - destruct (forallb is_cat pre) eqn:Ec; [|discriminate]. inversion H; subst.
+    - destruct (forallb is_pre pre) eqn:Ec; [|discriminate]. inversion H; subst.
       rewrite forallb_forall in Ec. specialize (Ec _ Hin). discriminate.
     - destruct (flush_commits im st ord evs st' cst0 H) as (_ & _ & _ & Hn). destruct (Hn j Hin).
     - inversion H; subst. destruct Hin as [Hin|[]]. inversion Hin. left. reflexivity.
-    - destruct (forallb is_cat pre) eqn:Ec; [|discriminate].
+    - destruct (forallb is_pre pre) eqn:Ec; [|discriminate].
       destruct (flush clen (apply_events im pre) _ ord) as [[e1 s1]| |] eqn:Ef; try discriminate.
       inversion H; subst. apply in_app_or in Hin as [Hin|Hin].
       + rewrite forallb_forall in Ec. specialize (Ec _ Hin). discriminate.
@@ -126,7 +126,7 @@ Section WithClen.
     (* the queue is empty again after every synchronous step *)
     assert (Hq1 : s_queue st1 = []).
     { destruct s as [? ? | ? | ? | pre0 bs0 ord0 i0 | rot | ord0]; try discriminate; cbn [exec_sev] in Eex.
-      - destruct (forallb is_cat pre0); [|discriminate].
+      - destruct (forallb is_pre pre0); [|discriminate].
         destruct (flush clen (apply_events im pre0) _ ord0) as [[e1 s1]| |] eqn:Ef; try discriminate.
         inversion Eex; subst. apply (flush_commits _ _ _ _ _ cst0 Ef).
       - inversion Eex; subst. exact Hq.
@@ -134,7 +134,7 @@ Section WithClen.
         cbn [with_last s_queue]. apply (flush_commits _ _ _ _ _ cst0 Ef). }
     destruct Hin as [->|Hin].
     - (* the head step is our request: its marker is the last event of [evs] *)
-      cbn [exec_sev] in Eex. destruct (forallb is_cat pre) eqn:Ec; [|discriminate].
+      cbn [exec_sev] in Eex. destruct (forallb is_pre pre) eqn:Ec; [|discriminate].
       destruct (flush clen (apply_events im pre) _ ord) as [[e1 s1]| |] eqn:Ef; try discriminate.
       inversion Eex; subst evs st1. clear Eex.
       set (evs := pre ++ e1 ++ [EAck i]) in *.
